@@ -2210,8 +2210,12 @@ void coefficient_div(const lp_polynomial_context_t* ctx, coefficient_t* D, const
 
   // Special case for constants
   if (coefficient_is_constant(C2)) {
+    // D can be C2: keep the divisor before D is overwritten
+    lp_integer_t divisor;
+    integer_construct_copy(lp_Z, &divisor, &C2->value.num);
     coefficient_assign(ctx, D, C1);
-    coefficient_div_constant(ctx, D, &C2->value.num);
+    coefficient_div_constant(ctx, D, &divisor);
+    integer_destruct(&divisor);
     return;
   }
   // A polynomial does not divide a constant
